@@ -13,6 +13,7 @@
 import ZlProofs.Props.C17
 import ZlProofs.Lemmas.Names
 import ZlModel.Names
+import ZlProofs.Lemmas.Thresholds
 import ZlModel.Generated.Registry
 namespace Zl.C20
 open Zl Generated
@@ -153,5 +154,54 @@ example : labelTooLong (List.replicate 32 195 ++ List.replicate 32 169) = true :
 example : hasEmptyLabel [97, 46, 46, 98] = true ∧ hasEmptyLabel [97, 46, 98] = false ∧ hasEmptyLabel [] = true := by decide
 
 end ModelledPairs
+
+
+/-! ## Modelled threshold companions -/
+section ModelledThresholds
+open Zl.Thresholds
+
+/-- **398 / 397 days, as the two rule bodies compute it** (inclusive validity, Go's saturating duration): whenever
+    the error-level lint fires the warning-level companion fires, for every pair of instants. -/
+theorem validity_pair_implies (nb na : Int) (h : validity398 nb na = Status.error) : validity397 nb na = Status.warn := by
+  unfold validity398 at h
+  unfold validity397
+  split at h
+  · rename_i hgt
+    have : certValidity nb na > 397 * appleDayLength := by
+      unfold appleDayLength second at hgt ⊢; omega
+    simp [this]
+  · cases h
+
+/-- the limit is inclusive of both end instants: notAfter = notBefore + 398 days − 1 s passes, one second more errors -/
+example : validity398 0 (398 * appleDayLength - second) = Status.pass ∧ validity398 0 (398 * appleDayLength) = Status.error := by decide
+example : validity397 0 (397 * appleDayLength - second) = Status.pass ∧ validity397 0 (397 * appleDayLength) = Status.warn := by decide
+/-- beyond the range of a Go Duration (≈ 292 years) the difference saturates and still exceeds both limits -/
+example : validity398 0 (300 * 365 * appleDayLength) = Status.error := by decide
+
+/-- **given name / surname 32768 / 64 characters, as the rule bodies count them** (utf8.RuneCountInString) -/
+theorem name_length_pair_implies (names : List (List Nat)) (h : nameTooLong 32768 Status.error names = Status.error) :
+    nameTooLong 64 Status.warn names = Status.warn := by
+  unfold nameTooLong anyFinding at h ⊢
+  split at h
+  · rename_i hany
+    obtain ⟨n, hn, hgt⟩ := List.any_eq_true.mp hany
+    have hgt' : 32768 < runeCount n := by simpa using hgt
+    have : names.any (fun n => decide (64 < runeCount n)) = true :=
+      List.any_eq_true.mpr ⟨n, hn, by simp; omega⟩
+    simp [this]
+  · cases h
+
+/-- characters are never more than octets, and at most four octets make one character — so a limit in
+    characters and the same limit in octets differ exactly on non-ASCII content (the C20 drift between a copy
+    that counts runes and a copy that counts bytes) -/
+theorem runes_le_octets (bs : List Nat) : runeCount bs ≤ bs.length := runeCount_le_length bs
+theorem octets_le_four_runes (bs : List Nat) : bs.length ≤ 4 * runeCount bs := length_le_four_mul_runeCount bs
+theorem runes_eq_octets_ascii (bs : List Nat) (h : ∀ b ∈ bs, b < 128) : runeCount bs = bs.length := runeCount_ascii bs h
+
+/-- invalid and truncated sequences count one rune per byte; valid ones one per sequence -/
+example : runeCount [0xC3, 0xA9] = 1 ∧ runeCount [0xC3] = 1 ∧ runeCount [0xFF, 0xFF] = 2 ∧ runeCount [0xE2, 0x82, 0xAC] = 1
+    ∧ runeCount [0xE2, 0x82] = 2 ∧ runeCount [0xED, 0xA0, 0x80] = 3 ∧ runeCount [0xF0, 0x9F, 0x98, 0x80] = 1 := by decide
+
+end ModelledThresholds
 
 end Zl.C20
